@@ -67,23 +67,26 @@ for d in demos:
     shutil.copy(d, sd)
 readme = open(os.path.join(mdir, "README.md")).read() if os.path.exists(os.path.join(mdir, "README.md")) else ""
 shutil.copy(os.path.join(mdir, "README.md"), os.path.join(sd, "AGENT_README.md"))
-# run the checks against /repo with the patch
+# run the checks with the patch: by default against the agent's scratch worktree (VERIF_REPO_OVERRIDE: /repo stays untouched,
+# so background runs are not disturbed); SEED_MODE=repo applies it to /repo itself and undoes it afterwards
 results = {}
+in_repo = os.environ.get("SEED_MODE") == "repo"
 for c in checks:
-    rc, o = sh(["git", "diff", "--quiet"], cwd="/repo")
+    target = "/repo" if in_repo else wt
+    rc, o = sh(["git", "diff", "--quiet"], cwd=target)
     if rc != 0:
-        print("/repo dirty"); sys.exit(2)
-    rc, o = sh(["git", "apply", os.path.join(sd, "patch.diff")], cwd="/repo")
+        print(target + " dirty"); sys.exit(2)
+    rc, o = sh(["git", "apply", os.path.join(sd, "patch.diff")], cwd=target)
     if rc != 0:
-        rc, o = sh(["git", "apply", "--3way", os.path.join(sd, "patch.diff")], cwd="/repo")
-    if rc != 0:
-        results[c] = "patch does not apply to /repo"; continue
+        results[c] = "patch does not apply to " + target; continue
     t = time.time()
+    cenv = dict(os.environ) if in_repo else dict(os.environ, VERIF_REPO_OVERRIDE=wt)
     try:
-        rc, o = sh(["./check", c, "--tier", os.environ.get("SEED_TIER", "quick")], cwd="/verif", timeout=3000)
+        p = subprocess.run(["./check", c, "--tier", os.environ.get("SEED_TIER", "quick")], cwd="/verif", env=cenv, capture_output=True, text=True, timeout=3000)
+        rc, o = p.returncode, p.stdout + p.stderr
     except subprocess.TimeoutExpired:
         rc, o = 99, "timeout"
-    sh("git checkout -- . ; git reset -q", cwd="/repo")
+    sh("git checkout -- . ; git reset -q", cwd=target)
     viol = [l for l in o.splitlines() if l.startswith("VIOLATION")]
     results[c] = {"exit": rc, "violations": len(viol), "first": (viol[0] if viol else ""), "wall_s": round(time.time() - t)}
     print("check %s on %s-%s: exit=%s violations=%d %ds" % (c, prop, letter, rc, len(viol), time.time() - t))
@@ -92,5 +95,5 @@ meta = {"breaks_property": prop, "id": "%s-%s" % (prop, letter), "source": "inde
         "needs_to_manifest": "see AGENT_README.md (section for mutant %s)" % letter,
         "ran": ["git apply patch.diff in a scratch worktree", "go build ./... && go build -tags verif ./...",
                 "go test -json -vet=off -count=1 ./... (30 stable tests still pass)",
-                "go test -run %s with and without the change" % demo_name] + ["./check %s with the patch applied to /repo, then git checkout" % c for c in checks]}
+                "go test -run %s with and without the change" % demo_name] + ["./check %s against the patched tree (%s)" % (c, "/repo, then git checkout" if in_repo else "scratch worktree via VERIF_REPO_OVERRIDE") for c in checks]}
 json.dump(meta, open(os.path.join(sd, "meta.json"), "w"), indent=1)
